@@ -28,6 +28,16 @@ tied at run time, in worker interpreters started under the ASan/UBSan runtime (`
       refuses it, is not fixed by the property).
 
 A case is non-trivial when the call reaches a kernel (API stream) / touches at least one element (tightness).
+
+ (iii) GENERATED MODELS. For the 13 integer kernels of the whitelist of `harness/c2lean.py` the Lean model is rewritten
+      from the C text of the working tree on every run (`Generated/CKernels.lean`, values and faults) and the `cgen_*`
+      theorems of `Props/C05.lean` are about that text. `harness/c05_cgen.py` validates translator + semantic primitives:
+      boundary + random inputs through the model driver and, when the model runs without fault, through the compiled
+      kernels (ctypes, worker process, exact comparison of value and buffers); inputs on which the model faults go to the
+      sanitizer builds (a report is expected; through a Python entry point that passes them on unchanged a report is a
+      failing input).
+The API stream also hands every entry point its input arrays READ-ONLY (`writeable=False`, `np.frombuffer` over bytes,
+`np.memmap(mode="r")`): a call that modifies them is a finding, a write into the read-only mapping kills the worker.
 """
 import hashlib
 import json
@@ -44,6 +54,8 @@ from . import c05_model as M
 from . import c05_run as R
 from . import c05_tight as T
 from . import pyx2spec as X
+from . import c2lean as CL
+from . import c05_cgen as CG
 
 PID = "C05"
 CT = {"int": "int", "long long": "ll", "double": "double"}
@@ -131,6 +143,8 @@ def branch_of(rep, signal):
     """stable part of a report: kernel function + kind of fault (no line numbers, no addresses, no data)"""
     if rep is None:
         return f"abnormal-exit:{signal}"
+    if rep["kind"] == "readonly-write":
+        return f"readonly-write:{rep.get('buf', '?')}"
     if rep["kind"] == "ubsan":
         msg = rep.get("msg", "")
         cls = ("integer-division-by-zero" if "division by zero" in msg else
@@ -507,6 +521,8 @@ def body(ctx):
     api_part(ctx, specs, externs, asan_dir, workroot)
     if externs is not None:
         tight_part(ctx, externs, asan_dir, reclib, workroot, called)
+    # the models GENERATED from the C text (harness/c2lean.py) against the compiled kernels (ctypes)
+    CG.stream(ctx, asan=(run_parallel, reclib, asan_dir, workroot))
     if not ctx.findings and not ctx.disagreements:
         shutil.rmtree(workroot, ignore_errors=True)     # status files and sanitizer logs are kept only for a failure
     else:
@@ -530,13 +546,24 @@ def body(ctx):
     ]
 
 
+def regen(ctx):
+    """both translators: the .pyx wrappers (never raises: a .pyx it cannot read becomes a file that does not
+    elaborate) and the C text of the integer kernels (raises `common.TranslatorError` when it cannot be translated:
+    the previously generated file is kept and the proof obligations are reported as broken)"""
+    X.regen(ctx)
+    CL.regen(ctx)
+
+
 def main(tier, replay=None):
     return C.run_check(
-        PID, tier, body, needs_native=False, regen=X.regen, replay=replay,
-        extra_modules=["HydroVerif.Generated.PyxSpec"],
+        PID, tier, body, needs_native=False, regen=regen, replay=replay,
+        extra_modules=["HydroVerif.Generated.PyxSpec", "HydroVerif.Generated.CKernels"],
         trusted=["ASan/UBSan (clang 14) report every access outside a malloc'ed block within its red zone, every "
                  "integer division by zero, signed overflow and unconvertible double in the instrumented code",
                  "harness/pyx2spec.py (the .pyx -> Lean translator) and the Cython boundary recorder of harness/c05_worker.py",
+                 "clang 14's parser / semantic analysis (JSON AST dump), harness/c2lean.py (C -> Lean translator of the "
+                 "integer kernels) and the integer semantics of lean/HydroVerif/Model/CSem.lean — validated on every run by "
+                 "the ctypes correspondence of the generated definitions with the compiled kernels (harness/c05_cgen.py)",
                  "Cython's buffer acquisition enforces dtype, ndim and C-contiguity of every typed ndarray argument",
                  "glibc qsort, libm and the Cython-generated glue stay inside the buffers they are given (oracle only)"],
         level_partial=[
@@ -545,4 +572,6 @@ def main(tier, replay=None):
             "kernels with a proved footprint model + wrapper obligation: " + ", ".join(PROVED),
             "covered by the sanitizer oracle only (no footprint model): " + ", ".join(ORACLE_ONLY),
             "32-bit index products of the `int` kernels are hypotheses of the theorems (arrays of < 2^31 elements)",
+            "kernels whose model is regenerated from the C text on every run (theorems about the generated definitions): "
+            + ", ".join(n for _, names in CL.WHITELIST for n in names) + "; the other kernels keep hand-written footprint models",
         ])
